@@ -115,3 +115,40 @@ Proof.
   pose proof (Z.quot_le_mono _ _ (f_step c) S G) as M.
   rewrite Z.quot_mul in M by lia. lia.
 Qed.
+
+(* ---- the exact result of every execution under one context ---- *)
+Definition fix_nth_result (d : Z) (c : fctx) (k : nat) : option fctx :=
+  if fix_refuses c then None else
+  match k with
+  | O => Some (fix_nth_window d c 0)
+  | S j => if fix_refuses (fix_nth_window d c j) then None else Some (fix_nth_window d c (S j))
+  end.
+
+Lemma fix_accepted_window_ordered : forall d c k, 0 < d -> fix_refuses c = false ->
+  f_from (fix_nth_window d c k) <= f_to (fix_nth_window d c k).
+Proof.
+  intros d c k D R. unfold fix_refuses in R. apply orb_false_iff in R. destruct R as [R _].
+  apply orb_false_iff in R. destruct R as [_ R]. apply Z.ltb_ge in R. cbn.
+  pose proof (Z.quot_le_mono (f_from c) (f_to c) d D R). nia.
+Qed.
+
+Lemma fix_one_context_exact : forall d k c, 0 < d ->
+  nth k (fix_run_one d (S k) c) None = fix_nth_result d c k.
+Proof.
+  intros d k. induction k as [|k IH]; intros c D.
+  - cbn. unfold fix_process, fix_nth_result. destruct (fix_refuses c); [reflexivity|]. rewrite fix_window_is_nth0. reflexivity.
+  - change (fix_run_one d (S (S k)) c) with (fix_process d c :: fix_run_one d (S k) (fix_after d c)). cbn [nth].
+    unfold fix_nth_result. destruct (fix_refuses c) eqn:R.
+    + assert (P : fix_process d c = None) by (unfold fix_process; rewrite R; reflexivity).
+      unfold fix_after. rewrite P. apply fix_refused_for_ever. exact R.
+    + assert (P : fix_process d c = Some (fix_window d c)) by (unfold fix_process; rewrite R; reflexivity).
+      unfold fix_after. rewrite P. rewrite IH by exact D. unfold fix_nth_result.
+      assert (Dn : d <> 0) by lia.
+      destruct k as [|i].
+      * rewrite fix_window_is_nth0 at 1. rewrite fix_nth_window_shift by exact Dn. reflexivity.
+      * rewrite !fix_nth_window_shift by exact Dn. rewrite (fix_window_is_nth0 d c).
+        destruct (fix_refuses (fix_nth_window d c 0)) eqn:R0; [|reflexivity].
+        rewrite (fix_refuses_mono (fix_nth_window d c 0) (fix_nth_window d c (S i))); try reflexivity; try exact R0.
+        -- apply fix_accepted_window_ordered; assumption.
+        -- unfold fix_nth_window; cbn [f_to]. pose proof (Nat2Z.is_nonneg (S i)). change (Z.of_nat 0) with 0. nia.
+Qed.
